@@ -541,4 +541,89 @@ def PQState.flushTrace (c : QCfg) : PQState → List QOp → List Bool
   | _, [] => []
   | q, op :: ops => q.autoFlush c op :: PQState.flushTrace c (q.step c op).1 ops
 
+/-! ## crashes (C06)
+
+  A crash stops the process: the write buffer, the reader and the ACK bookkeeping are lost; the file keeps the
+  last committed transaction state (engine level: Props/C01, Props/C06 `queue_crash`), i.e. the persisted
+  page chain, the root header and the tail position.  Then the queue is opened again: `newWriter` on the
+  persisted tail page (`WState.reopen`, as for `reopen` but WITHOUT the flush of `Close`), a new reader with a
+  nil cursor (positions itself on the root header's `read`/`head` position at its first call).
+
+  Every flush and every ACK is ONE engine transaction (Tie: `pq_flush_is_one_tx`, `pq_ack_is_one_tx`), so a
+  crash while an operation's transaction is in progress recovers either the state before the transaction or
+  the state after it: `crashDuring op committed`.  For `write`/`next` with an automatic flush the transaction
+  is that flush; what the call did to the buffer is lost either way.  Operations without a transaction
+  (reader calls, `write`/`next` that do not flush, rejected ACKs, `counters`) change nothing on disk: both
+  outcomes coincide with `crash`.
+
+  The callback totals `totFlushed`/`totAcked` are kept as ghost counters over the life of the queue (a new
+  process starts its own callbacks at 0); they equal the specification's `flushed`/`acked`.
+  A `Close` whose final flush fails (out of space, I/O fault) followed by opening the queue again has exactly
+  the effect of `crash`: this is how the driver replays such lines of the implementation's traces. -/
+
+/-- queue operations with crash points -/
+inductive QCOp where
+  | op (o : QOp)
+  /-- the process stops between two queue operations, the queue is opened again -/
+  | crash
+  /-- the process stops inside `o`; `committed`: the transaction of `o` had committed (its after-state is
+      recovered), otherwise its before-state -/
+  | crashDuring (o : QOp) (committed : Bool)
+  deriving Repr, DecidableEq
+
+/-- crash + open: buffer and reader are lost, chain, root header and tail position stay -/
+def PQState.crash (c : QCfg) (q : PQState) : PQState :=
+  { q with w := q.w.reopen c.S c.pages, r := {} }
+
+def PQState.cstep (c : QCfg) (q : PQState) : QCOp → PQState × QOut
+  | .op o => q.step c o
+  | .crash => (q.crash c, .ok)
+  | .crashDuring o committed => ((if committed then (q.step c o).1 else q).crash c, .ok)
+
+def PQState.crun (c : QCfg) : PQState → List QCOp → PQState × List QOut
+  | q, [] => (q, [])
+  | q, op :: ops =>
+    let r := q.cstep c op
+    let rest := PQState.crun c r.1 ops
+    (rest.1, r.2 :: rest.2)
+
+/-- specification of a crash: the events that were not flushed are gone (the ids of later events continue
+    from the flushed count), the event being written is gone, a new reader starts behind the ACKed events -/
+def ASpec.crash (a : ASpec) : ASpec :=
+  { a with events := a.events.take a.flushed, cur := [], consumed := a.acked, left := 0, inRead := false }
+
+/-- `fl`: the flush oracle for the operation (`PQState.autoFlush`), only looked at for `.op o` and
+    `.crashDuring o true`.  A crash is always possible; `crashDuring o true` needs `o` inside the contract. -/
+def ASpec.cstep (a : ASpec) (op : QCOp) (fl : Bool) : Option (ASpec × QOut) :=
+  match op with
+  | .op o => a.step o fl
+  | .crash => some (a.crash, .ok)
+  | .crashDuring o true => (a.step o fl).map fun r => (r.1.crash, .ok)
+  | .crashDuring _ false => some (a.crash, .ok)
+
+def QCOp.inner : QCOp → Option QOp
+  | .op o => some o
+  | .crash => none
+  | .crashDuring o _ => some o
+
+/-- the flush oracle of the concrete machine for an operation with crash points -/
+def PQState.cautoFlush (c : QCfg) (q : PQState) (op : QCOp) : Bool :=
+  match op.inner with
+  | some o => q.autoFlush c o
+  | none => false
+
+def ASpec.crun : ASpec → List QCOp → List Bool → Option (ASpec × List QOut)
+  | a, [], _ => some (a, [])
+  | a, op :: ops, fls =>
+    match a.cstep op (fls.headD false) with
+    | none => none
+    | some (a1, o) =>
+      match ASpec.crun a1 ops fls.tail with
+      | none => none
+      | some (a2, os) => some (a2, o :: os)
+
+def PQState.cflushTrace (c : QCfg) : PQState → List QCOp → List Bool
+  | _, [] => []
+  | q, op :: ops => q.cautoFlush c op :: PQState.cflushTrace c (q.cstep c op).1 ops
+
 end TxVerif
